@@ -63,6 +63,12 @@ class LbWorld(object):
     self.viol = []
     self.members = [i for i in range(self.n)]      # reference model of the server set (delivered view)
     self.loading = bool(params.get('gate'))
+    if params.get('load_fails'):
+      # the first attempt to load the member list fails: with an ordinary exception, or with one that derives from BaseException
+      # only (gevent.Timeout - e.g. the provider's own guard around a slow lookup); the balancer retries after 5 s
+      import gevent
+      self.ssp.raise_once = Exception('server set unavailable') if params['load_fails'] == 'exception' else gevent.Timeout(1)
+      self.loading = True
     self.queued = []                               # notifications accepted by the notifier but not yet applied
     self.requests = []                             # {'rid', 'serial', 'done'}
     self.rid = 0
@@ -408,7 +414,7 @@ class LbWorld(object):
       ops.append(['Back', 1])      # more than an hour (a mis-set clock being corrected)
     if 'Gate' in alpha and self.loading:
       ops.append(['Gate'])
-    if 'Adv' in alpha and not self.loading:
+    if 'Adv' in alpha and (not self.loading or p.get('load_fails')):
       for k in p.get('advs', [1]):
         ops.append(['Adv', k])
     if 'Open' in alpha:
@@ -434,6 +440,8 @@ class LbWorld(object):
   def _after_step(self, name, op):
     lb = self.lb
     HB = self.HB
+    if self.p.get('load_fails') and self.loading and self.lb._LoadBalancerSink__init_done.is_set():
+      self.loading = False
     if name in ('Join', 'Leave', 'JoinQ', 'LeaveQ', 'LeaveX'):
       self._notif_count = self._nnotif() + 1
     if name == 'LeaveX':
